@@ -88,6 +88,20 @@ def r1_writers(rep, ctx):
                 rep.bad("C13.R1", key, "%s of a value object is stored by %s%s: an operation can change an existing object"
                         % (x.attr, fn.qual.split(".", 2)[-1], "" if is_self else " through a non-self receiver"), node=st, fn=fn)
     rep.floor("C13.R1", "stores to value-object state", n, 9)
+    # any other attribute a method of a value class stores on self outside its constructors is new mutable state:
+    # a flag or memo that lets a later call answer from what an earlier call saw (formatting settings excepted)
+    SETTINGS = {"FORMATTED_SUFFIX_FORMAT", "FORMATTED_VALUE_FORMAT"}
+    for fn in m.funcs.values():
+        if fn.cls not in fam or not fn.is_method or not fn.params or fn.is_staticmethod or fn.name in CTORS:
+            continue
+        for x in own_nodes(fn.node):
+            if isinstance(x, ast.Attribute) and isinstance(x.ctx, (ast.Store, ast.Del)) and isinstance(x.value, ast.Name) and x.value.id == fn.params[0] \
+                    and x.attr not in FIELDS | MEMO | SETTINGS:
+                st = x
+                while not isinstance(st, ast.stmt):
+                    st = st._parent
+                rep.bad("C13.R1", "%s:%s:new-state" % (fn.qual.split(".", 2)[-1], x.attr), "%s stores the attribute %s on an existing value object: state that is not part of the value (a 'checked already' flag, a memo) makes later answers depend on earlier calls and is not reset when the held value changes"
+                        % (fn.qual.split(".", 2)[-1], x.attr), node=st, fn=fn)
 
 
 def _protected(atoms):
